@@ -31,3 +31,76 @@ Theorem cabi_exception_reply r c ex :
 Proof.
   rewrite exception_reply. intros H. inversion H; subst. rewrite excode_roundtrip. apply cabi_exception_name_ok.
 Qed.
+
+(* ------------------------------------------------------------------ C03 through the extern "C" layer *)
+From Coq Require Import Bool Lia.
+From Rodbus Require Import Model.Format Model.Range Model.ClientPaths Model.ClientSession Proofs.ClientCodecProofs Proofs.ClientPathsProofs Proofs.ClientSessionProofs.
+
+(* a C-ABI call queues exactly the request the Channel API's `build` constructs, or nothing *)
+Theorem cabi_queued_spec c : cabi_queued c = match build c with Ok r => Some r | _ => None end.
+Proof.
+  assert (Hr : forall s n (mk : N -> N -> call), (forall a b, mk a b = CReadCoils a b) \/ (forall a b, mk a b = CReadDiscreteInputs a b) \/
+             (forall a b, mk a b = CReadHoldingRegisters a b) \/ (forall a b, mk a b = CReadInputRegisters a b) ->
+             match try_from s n with inl _ => None | inr rg => match submit_via ViaFfi (mk (fst rg) (snd rg)) with Queued r => Some r | Rejected _ => None end end
+             = match build (mk s n) with Ok r => Some r | _ => None end).
+  { intros s n mk Hmk. destruct (try_from s n) as [e|rg] eqn:E.
+    - destruct Hmk as [H|[H|[H|H]]]; rewrite H; cbn [build]; unfold of_read_bits, of_read_registers, limited_count; cbn [fst snd]; rewrite E; reflexivity.
+    - assert (rg = (s, n)) as -> by (revert E; unfold try_from; destruct (n =? 0); [discriminate|]; destruct (_ <? s); [discriminate|]; now intros [= <-]).
+      cbn [fst snd]. rewrite submit_via_spec. destruct (build (mk s n)); reflexivity. }
+  destruct c as [s n|s n|s n|s n|i v|i v|s vs|s vs]; cbn [cabi_queued].
+  - apply (Hr s n CReadCoils); auto.
+  - apply (Hr s n CReadDiscreteInputs); auto.
+  - apply (Hr s n CReadHoldingRegisters); auto.
+  - apply (Hr s n CReadInputRegisters); auto.
+  - reflexivity.
+  - reflexivity.
+  - rewrite submit_via_spec. destruct (build _); reflexivity.
+  - rewrite submit_via_spec. destruct (build _); reflexivity.
+Qed.
+
+(* the code, as regenerated: both write-multiple functions leave the caller's list untouched *)
+Lemma lists_kept : list_kept "write_multiple_coils" = true /\ list_kept "write_multiple_registers" = true.
+Proof. split; vm_compute; reflexivity. Qed.
+
+Lemma cabi_list_calls_kept {A} (mk : N -> list A -> call) : forall steps held,
+  map (fun x => (snd (fst x), snd x)) (cabi_list_calls true mk held steps) = ref_list_calls mk held steps.
+Proof.
+  induction steps as [|[vs|[uid start]] rest IH]; intros held; cbn [cabi_list_calls ref_list_calls map fst snd]; [reflexivity|apply IH|].
+  f_equal. apply IH.
+Qed.
+
+Lemma cabi_list_calls_wf {A} (mk : N -> list A -> call) (P : list A -> Prop) :
+  (forall start l, start < 65536 -> P l -> call_wf (mk start l)) -> (forall a b, P a -> P b -> P (a ++ b)) ->
+  forall steps held, P held -> Forall (fun st => match st with inl vs => P vs | inr (uid, start) => start < 65536 end) steps ->
+  Forall (fun x => call_wf (snd x)) (cabi_list_calls true mk held steps).
+Proof.
+  intros Hmk Happ. induction steps as [|[vs|[uid start]] rest IH]; intros held Hh Hall; cbn [cabi_list_calls]; [constructor| |];
+    inversion Hall as [|? ? H1 H2]; subst.
+  - apply IH; [apply Happ; assumption|assumption].
+  - constructor; [cbn [snd]; apply Hmk; assumption|apply IH; assumption].
+Qed.
+
+(* a caller-owned coil list through any sequence of add / write steps: the wire log is the Spec's -
+   every write call transmits the values the list holds at call time (as far as within the limits),
+   with transaction ids 0, 1, 2, ... *)
+Theorem cabi_coil_list_wire_ref f steps :
+  Forall (fun st => match st with inl _ => True | inr (uid, start) => start < 65536 end) steps ->
+  cabi_coil_list_wire f steps = ref_session_wire (is_tcp f) 0 (ref_list_calls CWriteMultipleCoils [] steps).
+Proof.
+  intros Hall. unfold cabi_coil_list_wire. rewrite (proj1 lists_kept).
+  rewrite session_wire_from_start.
+  - unfold strip. rewrite cabi_list_calls_kept. reflexivity.
+  - apply (cabi_list_calls_wf CWriteMultipleCoils (fun _ => True)); auto.
+Qed.
+
+Theorem cabi_register_list_wire_ref f steps :
+  Forall (fun st => match st with inl vs => Forall is_u16 vs | inr (uid, start) => start < 65536 end) steps ->
+  cabi_register_list_wire f steps = ref_session_wire (is_tcp f) 0 (ref_list_calls CWriteMultipleRegisters [] steps).
+Proof.
+  intros Hall. unfold cabi_register_list_wire. rewrite (proj2 lists_kept).
+  rewrite session_wire_from_start.
+  - unfold strip. rewrite cabi_list_calls_kept. reflexivity.
+  - apply (cabi_list_calls_wf CWriteMultipleRegisters (Forall is_u16)); auto.
+    + intros start l Hs Hl. cbn [call_wf]. split; assumption.
+    + intros a b Ha Hb. apply Forall_app. split; assumption.
+Qed.
